@@ -95,9 +95,14 @@ def run_case(case, root):
     moddir = os.path.join(wd, "mods")
     install_modules(stubdir, moddir, variants)
     graph = {k: list(v) for k, v in case["graph"].items()}
+    anti = {k: list(v) for k, v in (case.get("anti") or {}).items()}     # provider -> modules it is a back-end for
+    backend = list(case.get("backend") or [])                            # back-ends of the core itself
     for n, v in variants.items():
         if v == "noctor":
             graph.pop(n, None)        # a module without a constructor cannot declare dependencies
+            anti.pop(n, None)
+            if n in backend:
+                backend.remove(n)
     lst = list(case["list"])
     conf = "core {\n  library_path ( %s );\n  modules ( %s );\n};\nlogs { };\n" % (dm.quote(moddir), ", ".join(lst))
     cp = os.path.join(wd, "m.conf")
@@ -107,6 +112,21 @@ def run_case(case, root):
     env = dm.san_env(detect_leaks=False)
     env["VERIF_GRAPH"] = ";".join("%s:%s" % (k, ",".join(v)) for k, v in sorted(graph.items()) if v)
     env["VERIF_EVLOG"] = evlog
+    env["VERIF_ANTI"] = ";".join("%s:%s" % (k, ",".join(v)) for k, v in sorted(anti.items()) if v)
+    env["VERIF_BACKEND"] = ("core:" + ",".join(backend)) if backend else ""
+    # what loading a module pulls in (its dependencies and the modules it is a back-end for) ...
+    pulls = {n: list(graph.get(n, [])) + list(anti.get(n, [])) for n in set(graph) | set(anti)}
+    # ... and the dependency relation the order clauses speak about: README "module_antidepends: the currently
+    # loading module is a back-end provider for some other module, and must be unloaded after it"; module.h: "should
+    # be treated as a dependency of that module"
+    eff = {k: list(v) for k, v in graph.items()}
+    loaded_set = reachable(pulls, lst)
+    for prov, targets in anti.items():
+        if prov not in loaded_set:
+            continue                  # a provider that is never loaded never announces itself
+        for t in targets:
+            if prov not in eff.setdefault(t, []):
+                eff[t].append(prov)
     binary = os.path.join(vc.build_daemon(), "iauthd-c")
     try:
         p = subprocess.run([binary, "-k", "-n", "-f", cp], stdin=subprocess.DEVNULL, stdout=subprocess.PIPE, stderr=subprocess.PIPE,
@@ -122,11 +142,12 @@ def run_case(case, root):
         with open(evlog) as fh:
             events = [ln.split() for ln in fh.read().splitlines() if ln.strip()]
     missing = case.get("missing")
-    nodes = reachable(graph, lst)
-    cyc = has_cycle(graph, nodes)
+    nodes = reachable(pulls, lst)
+    cyc = has_cycle(eff, nodes)
     bad = cyc or (missing is not None and missing in nodes)
     valid_line = "appears valid" in out
-    desc = "graph %s, modules ( %s )" % (env["VERIF_GRAPH"] or "-", ", ".join(lst))
+    desc = "graph %s%s%s, modules ( %s )" % (env["VERIF_GRAPH"] or "-", (" back-end providers " + env["VERIF_ANTI"]) if env["VERIF_ANTI"] else "",
+                                             (" core back-ends " + ",".join(backend)) if backend else "", ", ".join(lst))
     if mem:
         res.violations.append(V("memory_error", "%s: %s" % (desc, mem[0])))
         return res
@@ -142,7 +163,7 @@ def run_case(case, root):
         sig = "dag_rejected"
         indeg = {}
         for a in nodes:
-            for b in graph.get(a, []):
+            for b in eff.get(a, []):
                 indeg[b] = indeg.get(b, 0) + 1
         if any(v >= 2 for v in indeg.values()):
             sig = "diamond_reported_as_loop"
@@ -165,9 +186,18 @@ def run_case(case, root):
             if c != (1 if has(n, what) else 0):
                 res.violations.append(V("event_count", "%s (variants %s): %s of %s ran %d times" % (desc, variants, what, n, c)))
                 return res
+    # A provider announces itself from inside its own constructor and thereby loads the module it serves.  If that
+    # module (or something it pulls in) declares a dependency on the provider - or on anything whose constructor is
+    # still running further up the stack - that dependency cannot be "fully constructed first" whatever the loader
+    # does: the load order, not the dependency graph, has a cycle.  The construction-order clause is not judged then.
+    pull_cycle = has_cycle(pulls, nodes)
+    if pull_cycle:
+        res.classes.add("load_order_cycle_ctor_clause_not_judged")
     for a in nodes:
-        for b in graph.get(a, []):
-            if has(a, "ctor_end") and has(b, "ctor_end") and not pos[("ctor_end", b)][0] < pos[("ctor_end", a)][0]:
+        for b in eff.get(a, []):
+            # construction order is promised for declared dependencies only: a back-end provider announces itself
+            # from inside its own constructor, when the module it serves may long be constructed
+            if not pull_cycle and b in graph.get(a, []) and has(a, "ctor_end") and has(b, "ctor_end") and not pos[("ctor_end", b)][0] < pos[("ctor_end", a)][0]:
                 res.violations.append(V("ctor_order", "%s: %s depends on %s but finished constructing first" % (desc, a, b)))
             if has(a, "post_init") and has(b, "post_init") and not pos[("post_init", b)][0] < pos[("post_init", a)][0]:
                 res.violations.append(V("post_init_order", "%s: post-init of %s ran before that of its dependency %s" % (desc, a, b)))
@@ -175,14 +205,18 @@ def run_case(case, root):
                 res.violations.append(V("dtor_order", "%s: destructor of %s ran after that of its dependency %s" % (desc, a, b)))
     if variants:
         res.classes.add("optional_entry_point_missing")
+    if any(anti.get(n) for n in nodes):
+        res.classes.add("backend_provider_edge")
+    if any(n in backend for n in nodes):
+        res.classes.add("core_backend")
     indeg = {}
     for a in nodes:
-        for b in graph.get(a, []):
+        for b in eff.get(a, []):
             indeg[b] = indeg.get(b, 0) + 1
     if any(v >= 2 for v in indeg.values()):
         res.classes.add("diamond")
         res.nontrivial = True
-    if longest_chain(graph, nodes) >= 3:
+    if longest_chain(eff, nodes) >= 3:
         res.classes.add("chain3")
         res.nontrivial = True
     return res
@@ -215,7 +249,22 @@ def graph_s(draw, pid, tier, opts=None):
     if draw(st.integers(0, 2)) == 0:
         for n in draw(st.lists(st.sampled_from(names), min_size=1, max_size=2, unique=True)):
             variants[n] = draw(st.sampled_from(["noctor", "nopost", "nopost", "nodtor"]))
-    return {"graph": graph, "list": lst, "missing": missing, "variants": variants}
+    case = {"graph": graph, "list": lst, "missing": missing, "variants": variants}
+    k = draw(st.integers(0, 3))
+    if k == 0:
+        # some dependencies are declared from the other side: the provider calls module_antidepends(user)
+        anti = {}
+        for a in list(graph):
+            for b in list(graph[a]):
+                if b != "mX" and draw(st.integers(0, 2)) == 0:
+                    graph[a].remove(b)
+                    anti.setdefault(b, []).append(a)
+            if not graph[a]:
+                del graph[a]
+        case["anti"] = anti
+    if k in (0, 1) and draw(st.booleans()):
+        case["backend"] = draw(st.lists(st.sampled_from(names), min_size=1, max_size=2, unique=True))
+    return case
 
 
 def make_context(pid, tier, widx, opts):
@@ -259,6 +308,37 @@ def enum_cases(tier):
                     for var in ("noctor", "nopost", "nodtor"):
                         for lst in ([names[0]], names, names[::-1]):
                             yield {"graph": graph, "list": list(lst), "missing": None, "variants": {who: var}}
+    # the same small graphs with every edge declared either by the dependent (module_depends) or by the provider
+    # (module_antidepends): all such mixed graphs on 2 modules (self-loops included) and on 3 modules (no self-loops)
+    for n in (2, 3):
+        names = NAMES[:n]
+        pairs = [(a, b) for a in names for b in names if n == 2 or a != b]
+        for code in itertools.product((0, 1, 2), repeat=len(pairs)):
+            if 2 not in code:
+                continue
+            graph, anti = {}, {}
+            for (a, b), c in zip(pairs, code):
+                if c == 1:
+                    graph.setdefault(a, []).append(b)
+                elif c == 2:
+                    anti.setdefault(b, []).append(a)       # b announces itself as a's back-end: a depends on b
+            for k in range(1, n + 1):
+                for lst in itertools.permutations(names, k):
+                    yield {"graph": graph, "anti": anti, "list": list(lst), "missing": None}
+    # back-ends of the core itself (module_is_backend): every acyclic graph on 3 modules x every non-empty set of back-ends
+    names = NAMES[:3]
+    pairs = [(a, b) for a in names for b in names if a != b]
+    for mask in range(1 << len(pairs)):
+        graph = {}
+        for i, (a, b) in enumerate(pairs):
+            if mask >> i & 1:
+                graph.setdefault(a, []).append(b)
+        if has_cycle(graph, names):
+            continue
+        for r in (1, 2, 3):
+            for be in itertools.combinations(names, r):
+                for lst in ([names[0]], [names[2]], names, names[::-1]):
+                    yield {"graph": graph, "backend": list(be), "list": list(lst), "missing": None}
     if tier == "thorough":
         names = NAMES[:4]
         pairs = [(a, b) for a in names for b in names if a != b]
@@ -305,7 +385,9 @@ def extra_phase(pid, tier, seed):
     with mp.get_context("fork").Pool(nw) as pool:
         rs = pool.map(_enum_worker, [(tier, w, nw) for w in range(nw)])
     out = {"evaluations": 0, "nontrivial": 0, "fails": [], "classes": {}, "samples": [],
-           "exhaustive_scope": "every digraph (self-loops included) on 1-3 stub modules x every ordered non-empty module list"
+           "exhaustive_scope": "every digraph (self-loops included) on 1-3 stub modules x every ordered non-empty module list; every graph on 2 modules "
+                               "(self-loops included) and on 3 modules (no self-loops) whose edges are each declared by module_depends or by module_antidepends "
+                               "x every ordered non-empty list; every acyclic 3-module graph x every non-empty set of core back-ends (module_is_backend) x 4 lists"
                                + ("; every DAG on 4 labelled modules listed from each single root and in two full orders" if tier == "thorough" else "")}
     for n, nt, fails, classes, samples in rs:
         out["evaluations"] += n
